@@ -78,7 +78,35 @@ partial def exprOfJ (j : Json) : Except String Expr := do
     return .coll k items
   throw "expr"
 
+/-- consumer expressions: the forms of `exprOfJ` plus `{"len": e}` | `{"first": e}` | `{"last": e}` |
+`{"index": {"e": e, "i": n}}` | `{"join": {"e": e, "sep": "…"}}` -/
+partial def cexprOfJ (j : Json) : Except String CExpr := do
+  if let .ok p := j.getObjVal? "ref" then return .ref (← tPathOfJ p)
+  if let .ok d := j.getObjVal? "dflt" then
+    return .dflt (← getStr d "x") (← getStr d "d")
+  if let .ok c := j.getObjVal? "coll" then
+    let k ← tKindOfJ (← getStr c "k")
+    let its ← getArr c "items"
+    let items ← its.toList.mapM fun kv => do
+      let a ← kv.getArr?
+      match a.toList with
+      | [key, e] => do let ks ← asStr key; let ee ← cexprOfJ e; pure (ks, ee)
+      | _ => throw "coll item"
+    let keys := items.map Prod.fst
+    if (k = .dict ∨ k = .dictCall) ∧ keys.eraseDups.length ≠ keys.length then
+      throw "repeated dict key: outside the fragment"
+    return .coll k items
+  if let .ok e := j.getObjVal? "len" then return .len (← cexprOfJ e)
+  if let .ok e := j.getObjVal? "first" then return .first (← cexprOfJ e)
+  if let .ok e := j.getObjVal? "last" then return .last (← cexprOfJ e)
+  if let .ok x := j.getObjVal? "index" then
+    return .index (← cexprOfJ (← x.getObjVal? "e")) (← (← x.getObjVal? "i").getNat?)
+  if let .ok x := j.getObjVal? "join" then
+    return .join (← getStr x "sep") (← cexprOfJ (← x.getObjVal? "e"))
+  throw "cexpr"
+
 partial def tPValJ : PVal → Json
+  | .num n => Json.num n
   | .val v => tValJ v
   | .undef p => Json.mkObj [("undef", strJ p.show)]
   | .coll .list items => Json.arr (items.map fun kv => tPValJ kv.2).toArray
@@ -126,6 +154,16 @@ def srcOfJ (j : Json) : Except String Src := do
     let l ← getStr n "l"
     let r ← getStr n "r"
     return .natE l (← exprOfJ (← n.getObjVal? "e")) r
+  if let .ok x := j.getObjVal? "textC" then
+    let e ← cexprOfJ (← x.getObjVal? "e")
+    match x.getObjVal? "cat" with
+    | .ok Json.null => return .textC e none
+    | .ok f => return .textC e (some (← cexprOfJ f))
+    | .error _ => return .textC e none
+  if let .ok n := j.getObjVal? "natC" then
+    let l ← getStr n "l"
+    let r ← getStr n "r"
+    return .natC l (← cexprOfJ (← n.getObjVal? "e")) r
   if let .ok a := getArr j "nat2" then
     match a.toList with
     | [p, q] => return .nat2 (← tPathOfJ p) (← tPathOfJ q)
@@ -151,6 +189,27 @@ def tErrJ : Err → Json
   | .undefined p => Json.mkObj [("error", Json.str "undefined"), ("path", strJ p.show)]
   | .filterType p => Json.mkObj [("error", Json.str "filterType"), ("path", strJ p.show)]
   | .nestedNative => Json.mkObj [("error", Json.str "nestedNative")]
+  | .noElement => Json.mkObj [("error", Json.str "noElement")]
+  | .badOperand => Json.mkObj [("error", Json.str "badOperand")]
+
+/-- the Lean predicates of F-C16-d's trigger for a consumer cell: `names` = some bare reference
+is undefined, `used` = `UsedUndef`, `off` = a consumer left the fragment -/
+def tFlags (ctx : Option Ctx) (ast : Src) : List (String × Json) :=
+  match ctx, ast with
+  | some c, .textC e cat =>
+    let f := cat.getD (.coll .list [])
+    [("names", Json.bool (NamesUndef c e || NamesUndef c f)),
+     ("used", Json.bool (UsedUndef c e || UsedUndef c f)),
+     ("off", Json.bool (OffFragment c e || OffFragment c f))]
+  | some c, .natC _ e _ =>
+    [("names", Json.bool (NamesUndef c e)), ("used", Json.bool (UsedUndef c e)),
+     ("off", Json.bool (OffFragment c e))]
+  | _, _ => []
+
+def withFlags (j : Json) (fl : List (String × Json)) : Json :=
+  match fl with
+  | [] => j
+  | _ => j.mergeObj (Json.mkObj fl)
 
 def tOutJ : Out → Json
   | .text s => Json.mkObj [("text", strJ s)]
@@ -177,17 +236,17 @@ def handleTemplate (op : String) (j : Json) : Except String Json := do
       -- the structure handed over must be a reading of the text (the harness prints it itself)
       if ast.show ≠ stripped then
         throw s!"ast does not print as the stripped cell: {String.ofList ast.show} vs {String.ofList stripped}"
-      let isNat := match ast with | .text _ => false | _ => true
+      let isNat := match ast with | .text _ => false | .textC _ _ => false | _ => true
       if isNativeCell stripped ≠ isNat then throw "native detection and ast disagree"
       let fn := getStrD j "fn" "pas".toList
       if fn = "parse".toList then
         match parse cf ctx value ast with
-        | .ok r => pure (tParsedJ r)
-        | .error e => pure (tErrJ e)
+        | .ok r => pure (withFlags (tParsedJ r) (tFlags ctx ast))
+        | .error e => pure (withFlags (tErrJ e) (tFlags ctx ast))
       else
         match parseAsString cf ctx value ast with
-        | .ok r => pure (tOutJ r)
-        | .error e => pure (tErrJ e)
+        | .ok r => pure (withFlags (tOutJ r) (tFlags ctx ast))
+        | .error e => pure (withFlags (tErrJ e) (tFlags ctx ast))
   | "template.show" => do
       let ast ← srcOfJ (← j.getObjVal? "ast")
       pure (strJ ast.show)
